@@ -288,27 +288,26 @@ func (fs *FileSink) pruneFiles() error {
 		return nil
 	}
 
-	// get all the files that match the log file pattern
+	// get all the files that match the log file pattern. The directory is
+	// listed rather than globbed: a configured path or file name is not a glob
+	// pattern (logs[1] would match nothing, and nothing would ever be pruned).
 	pattern := fs.fileNamePattern()
-	globExpression := filepath.Join(fs.Path, fmt.Sprintf(pattern, "*"))
-	matches, err := filepath.Glob(globExpression)
+	entries, err := os.ReadDir(fs.Path)
 	if err != nil {
 		return err
 	}
 
-	// The glob also matches files whose name merely starts with this sink's
-	// base name (audit-errors-<timestamp>.log for audit.log), which belong to
-	// somebody else: only <base>-<digits><ext> are this sink's rotated files.
-	own := matches[:0]
-	for _, m := range matches {
-		if isRotatedName(pattern, filepath.Base(m)) {
-			own = append(own, m)
+	// Files whose name merely starts with this sink's base name
+	// (audit-errors-<timestamp>.log for audit.log) belong to somebody else:
+	// only <base>-<digits><ext> are this sink's rotated files.
+	var matches []string
+	for _, entry := range entries {
+		if isRotatedName(pattern, entry.Name()) {
+			matches = append(matches, filepath.Join(fs.Path, entry.Name()))
 		}
 	}
-	matches = own
 
-	// Stort the strings as filepath.Glob does not publicly guarantee that files
-	// are sorted, so here we add an extra defensive sort.
+	// Sort the names, so that the oldest files come first.
 	sort.Strings(matches)
 
 	stale := len(matches) - fs.MaxFiles
